@@ -512,8 +512,65 @@ def expose_case(ctx, bits, cls, rep):
                                   signal=[float(img.ravel()[i_[0]]), float(img.ravel()[i_[0] + 1])], dn=[int(flat[f_[0], i_[0]]), int(tgt[0])])
 
 
+def saturated_real_rng_case(ctx, bits, rep):
+    """Real generator (no shim): every pixel is driven so far past full well that the Poisson draw cannot matter, so
+    the DN is deterministic: floor(min(fwc/gain, 2^bits-1)).  Exercises the code paths the noise-free shim cannot reach
+    (integer Poisson counts, integer-typed bias, read_noise == 0, fractional full-well capacity, gain < 1)."""
+    from prysm import detector
+    rng = np.random.default_rng([ctx.seed, 1616, bits, rep])
+    cap = 2 ** bits - 1
+    gain = float([0.125, 0.25, 0.5, 0.3, 1.0, 2.0, 7.3][int(rng.integers(7))])
+    sat_e = cap * gain
+    variant = ['fwc-below-adc/int-bias', 'fwc-below-adc/float-bias', 'fwc-above-adc/int-bias'][int(rng.integers(3))]
+    if variant.startswith('fwc-below-adc'):
+        fwc = max(2.0, float(np.floor(rng.uniform(0.2, 0.95) * sat_e))) + float([0.75, 0.5, 0.25, 0.9][int(rng.integers(4))])
+        if fwc >= sat_e:
+            fwc = max(1.5, sat_e - 0.25)
+    else:
+        fwc = float(np.floor(sat_e * rng.uniform(2, 50))) + 10.5
+    bias = int(rng.integers(0, max(1, int(0.2 * min(fwc, sat_e))) + 1))
+    if 'float-bias' in variant:
+        bias = float(bias) + 0.0
+    shape = [(2, 3), (3, 3), (1, 4), (4, 2)][int(rng.integers(4))]
+    t = float([1.0, 0.5, 2.0][int(rng.integers(3))])
+    level = 1000.0 * (max(fwc, sat_e) + 10.0) / t
+    img = np.full(shape, level)
+    if rng.random() < 0.3:
+        img = img.astype(np.int64)
+    frames = int(rng.integers(1, 3))
+    want = int(np.floor(min(min(fwc, 1e300) / gain, cap) * (1 + 0)))
+    want = int(np.floor(min(fwc / gain, float(cap))))
+    desc = {'wl': 'expose-real-rng', 'bits': bits, 'variant': variant, 'gain': gain, 'bias': bias, 'bias_type': type(bias).__name__,
+            'fwc': fwc, 't': t, 'shape': list(shape), 'frames': frames, 'img_dtype': str(img.dtype),
+            'class': f'expose:saturated/real-rng/{variant}:bits={bits}'}
+    ctx.case(desc)
+    det = detector.Detector(dark_current=0, read_noise=0, bias=bias, fwc=fwc, conversion_gain=gain, bits=bits, exposure_time=t)
+    out = None
+    with seeded_numpy(int(rng.integers(2 ** 31 - 1))), ctx.guard('C16/expose', desc):
+        out = det.expose(img, frames=frames)
+    if out is None:
+        return
+    ctx.observe('expose.saturated-real-rng')
+    o = np.asarray(out).astype(np.int64)
+    # fwc/gain within a float ulp of an integer: accept both neighbours
+    q = min(fwc / gain, float(cap))
+    ok_vals = {want}
+    if abs(q - round(q)) < 1e-9 * max(1.0, q):
+        ok_vals |= {int(round(q)), int(round(q)) - 1}
+    if not np.isin(o, list(ok_vals)).all():
+        region = 'full-well-saturated' if fwc < sat_e else 'adc-saturated'
+        ctx.violation(f'C16/expose/noise-free-model/{region}', 'a pixel driven far past saturation (read noise off) does not read '
+                      f'floor(min(fwc/gain, 2^bits-1)) for a {region} pixel', desc, got=o.ravel()[:3], want=want)
+
+
 def expose_workload(ctx):
     reps = ctx.pick(3, 60)
+    kk = -1
+    for rep in range(ctx.pick(4, 80)):
+        for bits in range(1, 33):
+            kk += 1
+            if ctx.mine(kk):
+                saturated_real_rng_case(ctx, bits, rep)
     k = -1
     for rep in range(reps):
         for bits in range(1, 33):
